@@ -85,6 +85,10 @@ func (t *RTPTransceiver) getCodecs() []RTPCodecParameters {
 				codec.PayloadType = c.PayloadType
 			}
 			codec.RTCPFeedback = rtcpFeedbackIntersection(codec.RTCPFeedback, c.RTCPFeedback)
+			if findCodecByPayload(filteredCodecs, codec.PayloadType) != nil {
+				// a payload type is listed once per media section
+				continue
+			}
 			filteredCodecs = append(filteredCodecs, codec)
 		}
 	}
